@@ -90,6 +90,9 @@ def lloydClusterX (P G : Csr) (c : Array Int) (maxiter : Nat) : Except String (O
     .ok (lloydLoopX P G maxiter cn (initState G.n cn).2.1)
   else .error "ValueError"
 
+/-- `v < 0` for a weight (`+inf < 0` is false) -/
+def negW (v : W) : Bool := match v with | some q => decide (q < 0) | none => false
+
 /-- `lloyd_aggregation(C, ratio, measure, maxiter)` for complex / real `C` (CSR arrays `n, ap, aj, x`), `perm` the
 replayed permutation; `.error "unmodelled"` = unknown measure or a modulus `sq` refuses -/
 def lloydAggregationC (sq : Rat → Option Rat) (n : Nat) (ap aj : Array Nat) (x : Array CRat) (measure : String)
@@ -99,7 +102,7 @@ def lloydAggregationC (sq : Rat → Option Rat) (n : Nat) (ap aj : Array Nat) (x
   match applyMeasureC sq measure x with
   | none => .error "unmodelled"
   | some w =>
-    if w.toList.any (fun v => match v with | some q => decide (q < 0) | none => false) then .error "ValueError" else
+    if w.toList.any negW then .error "ValueError" else
     let P : Csr := ⟨n, ap, aj, w.map (fun v => v.getD 0)⟩
     let G : Csr := if w.toList.all (fun v => v.isSome) then P else dropInf n ap aj w
     match lloydClusterX P G (perm.extract 0 (naggs ratio n)) maxiter with
